@@ -57,6 +57,15 @@ def through_variant_preserving(pe):
         ren = step if ren is None else {o: step.get(i_, i_) for o, i_ in ren.items()}
         cur = strip_refs(cur[2][0])
         moved = True
+    if moved and cur[0] == "call" and cur[1] and re.match(r"^std::(option::Option|result::Result)::<.*?>::\w+$", cur[1].get("path") or ""):
+        # the chain bottoms out in another combinator (and_then, or_else, filter …) whose variant depends on a closure:
+        # keep the atom on the expression as written (optnorm.cases_expr expands such chains into cases); only `x?` is
+        # looked through, as it always was
+        top = strip_refs(pe)
+        if top[0] == "call" and top[1] and (top[1].get("path") or "") in TRY and top[2]:
+            isres = "Result" in top[1]["path"]
+            return (strip_refs(top[2][0]), {"Continue": "Ok" if isres else "Some", "Break": "Err" if isres else "None"})
+        return (None, None)
     return (cur, ren) if moved else (None, None)
 
 
